@@ -133,6 +133,23 @@ def extract(F, method, names, arg_binding=None, flags=None):
     return rel
 
 
+def waiting_cancel(F, R, rule='B.C05.cancel'):
+    """'A resume scheduled for a clock time ... is cancelled (a waiting sound becomes Stopped) if the clock no longer exists':
+    with the flags a sound's manager is built with, `update` takes WaitingToResume to Resuming, back to WaitingToResume, or
+    to Stopped - and to nothing else (the transition relation extracted for B.SM.extract, this one row)."""
+    names = state_names(F)
+    flag_names, bindings, problems = owner_bindings(F)
+    if not R.check(names is not None and 'sound' in bindings, rule, 'anchor:resume-cancel', 'state machine / sound constructor not found'):
+        return
+    rel = extract(F, 'update', names, None, flags=bindings.get('sound', {}))
+    tos = set()
+    for to, ret, dec, calls in (rel or {}).get('WaitingToResume', []):
+        tos |= set(to)
+    R.check(tos == {'Resuming', 'Stopped', 'WaitingToResume'}, rule, 'resume:never->stopped',
+            'for a sound, update from WaitingToResume leads to %s; a resume waiting for a clock that no longer exists must end in Stopped'
+            % sorted(tos), detail={'to': sorted(tos)})
+
+
 def ret_bool(ret, decisions):
     """The boolean a path returns: a literal, or a value the path itself has branched on (`if finished {..} finished`)."""
     r = str(ret)
@@ -176,6 +193,10 @@ def run(ctx, R, tier):
     good, msg = chk_loop_region_ordered(F)
     R.check(good, 'B.C03.loop-region', 'stores', 'Transport.loop_region: %s' % msg, detail=msg)
     fade_continuity(F, R)
+    # 'every finite non-looping sound reaches Stopped': the track it plays on is not unloaded under it (the documented
+    # removal predicate: C12's rule)
+    from .c12 import remove_rule
+    remove_rule(F, R, rule='B.C03.alive')
     from .c06 import accumulators
     accumulators(F, R, rule='B.C03.accumulate')
     # a fade-driven step completes when its tween completes: the fade and start-time bookkeeping runs on every path of process
@@ -774,7 +795,11 @@ def fade_continuity(F, R, rule='B.SM.fade-continuity'):
             detail={'methods': n, 'set_calls': len(sets)})
 
 
-def commands_reach_manager(F, R, rule='B.C03.cmd-applied'):
+SOUND_OWNERS = (('static', 'sound::static_sound::sound::StaticSound'), ('streaming', 'sound::streaming::sound::StreamingSound'))
+TRACK_OWNERS = (('track', 'track::sub::Track'),)
+
+
+def commands_reach_manager(F, R, rule='B.C03.cmd-applied', owners=SOUND_OWNERS, floor=6):
     """A pause / resume / stop command that was read is handed to the state machine, whatever the current state: under
     the Some edge of each life-cycle reader every path reaches `PlaybackStateManager::<same name>` (the state machine
     itself decides what a command means in each state, identically for both kinds of sound; a handler that short-cuts -
@@ -783,12 +808,20 @@ def commands_reach_manager(F, R, rule='B.C03.cmd-applied'):
     from ..rules import some_edge
     from .c07 import origin_pl, last_field
     n = 0
-    for tag, owner in (('static', 'sound::static_sound::sound::StaticSound'), ('streaming', 'sound::streaming::sound::StreamingSound')):
+    for tag, owner in owners:
         v = F.inlined_view(owner + '::read_commands', depth=2, pred=lambda hp: hp.startswith(owner + '::'))
-        if v is None:
+        if v is None and owner.startswith('sound::'):
             v = F.inlined_view('<%s as sound::Sound>::on_start_processing' % owner, depth=3, pred=lambda hp: hp.startswith(owner + '::'))
+        if v is None:
+            v = F.inlined_view(owner + '::on_start_processing', depth=3, pred=lambda hp: hp.startswith(owner + '::') and not hp.endswith('::on_start_processing'))
         if not R.check(v is not None, rule, 'anchor:' + tag, 'command reading of the %s sound not found' % tag):
             continue
+        # ... with the tween the command carried: the command handlers build no tween of their own and change no field of one
+        built = [1 for _, _, s2 in v.stmts() if s2['k'] == 'assign' and s2['rv']['k'] == 'agg' and s2['rv'].get('adt') == 'tween::Tween']
+        patched = [pretty_place(v, s2['lhs']) for _, _, s2 in v.stmts() if s2['k'] == 'assign' and s2['lhs']['p'] and s2['lhs']['p'][0][0] == 'field'
+                   and (v.locals[s2['lhs']['l']].get('ty') or '') == 'tween::Tween']
+        R.check(not built and not patched, rule, '%s:tween-untouched' % tag, 'the %s command handlers build / alter a Tween (%s): a life-cycle command runs with the tween '
+                'the caller gave' % (tag, (['Tween { .. }'] if built else []) + patched[:2]), detail='pause / resume / stop hand on the command\'s own tween', where=v.file)
         for x, t in v.calls():
             if (callee_path(t) or '') != 'command::CommandReader::<T>::read':
                 continue
@@ -807,7 +840,7 @@ def commands_reach_manager(F, R, rule='B.C03.cmd-applied'):
                 ok = bool(tgt) and must_pass(v, [se], nxt + v.return_blocks(), tgt)
             R.check(ok, rule, '%s:%s' % (tag, lf[0]), 'the %s sound does not hand every `%s` command it reads to PlaybackStateManager::%s' % (tag, lf[0], lf[0]),
                     detail={'reader': lf[0]}, where=v.file)
-    R.floor(rule, n, 6)
+    R.floor(rule, n, floor)
 
 
 def finite_length(F, R):
